@@ -7,6 +7,10 @@
    (it is exactly "sb_execs ends in a live state", see c09_pick_nonempty); when [strict],
    forget_sent_state is only used while no byte has been released (class of finding F28 otherwise).
    Empty ranges (FIN-only frames) given to ack / loss are ignored since the fix of finding F29.
+   Since the repair of finding F70 SendBuf::on_data_acked / may_loss_data act on the sent part
+   [s, min e sent()) of the reported range only: reports about frames of a rejected 0-RTT packet (whose
+   bytes are Pending again after forget_sent_state) no longer reach BufMap's `covered Pending parts`
+   assertions (c09_report_total, c09_report_ack, c09_report_loss, c09_forget_then_reports).
    [colour_at m i] is the abstraction function. *)
 From Coq Require Import List NArith ZArith.
 From GQ Require Import Lib.Base Model.SendBuf Proofs.SendBuf.
@@ -155,6 +159,52 @@ Theorem c09_forget_safe_at_base0 : forall c cap ops b outs,
   (forall s e, e <= written b -> data_of c (forget_sent_state b) s e = slice c s (e - s)).
 Proof. exact p_c09_forget_safe_at_base0. Qed.
 
+(* ---- reports about data that is not in flight (finding F70, repaired) ---- *)
+
+(* after EVERY operation list, an acknowledgement or loss report with ANY range succeeds: the debug
+   assertions of BufMap::ack_rcvd / may_loss (range covers Pending, range beyond size) are unreachable
+   through SendBuf *)
+Theorem c09_report_total : forall c cap ops b outs s e, reach false c cap ops b outs ->
+  on_data_acked b s e <> None /\ may_loss_data b s e <> None.
+Proof. exact p_c09_report_total. Qed.
+
+(* what a report does: exactly the sent part of the range changes colour; never-sent bytes stay Pending
+   (they are still offered, as fresh data: c09_pick), nothing else moves *)
+Theorem c09_report_ack : forall c cap ops b outs s e b', reach false c cap ops b outs ->
+  on_data_acked b s e = Some b' ->
+  written b' = written b /\ sent b' = sent b /\ max_data b' = max_data b /\ size (st b') = size (st b) /\
+  (forall i, colour_at (st b') i = if in_range s (N.min e (sent b)) i then Some Recved else colour_at (st b) i).
+Proof. exact p_c09_report_ack. Qed.
+
+Theorem c09_report_loss : forall c cap ops b outs s e b', reach false c cap ops b outs ->
+  may_loss_data b s e = Some b' ->
+  written b' = written b /\ sent b' = sent b /\ max_data b' = max_data b /\ size (st b') = size (st b) /\
+  base b' = base b /\ retained b' = retained b /\
+  (forall i, colour_at (st b') i = if in_range s (N.min e (sent b)) i then option_map lossf (colour_at (st b) i) else colour_at (st b) i).
+Proof. exact p_c09_report_loss. Qed.
+
+Theorem c09_stale_report_noop : forall b s e, sent b <= s ->
+  on_data_acked b s e = Some b /\ may_loss_data b s e = Some b.
+Proof. exact p_c09_stale_report_noop. Qed.
+
+(* 0-RTT rejection = forget_sent_state at base 0 followed by the window of the real handshake: the state
+   stays in the strict class, nothing counts as sent, and every report (loss or acknowledgement of a frame
+   that travelled in a rejected 0-RTT packet) leaves the buffer exactly as it is *)
+Theorem c09_forget_then_reports : forall c cap ops b outs mx b1,
+  reach true c cap ops b outs -> base b = 0 -> extend (forget_sent_state b) mx = Some b1 ->
+  reach true c cap (ops ++ [SbForget; SbExtend mx]) b1 (outs ++ [OUnit; OUnit]) /\
+  sent b1 = 0 /\ written b1 = written b /\ base b1 = 0 /\
+  (forall s e, on_data_acked b1 s e = Some b1 /\ may_loss_data b1 s e = Some b1).
+Proof. exact p_c09_forget_then_reports. Qed.
+
+Example c09_f70_regression :
+  exists b outs, sb_execs content (Some (with_capacity 10))
+      [SbWrite 10; SbPick 6 6 100; SbForget; SbExtend 8; SbLoss 0 6; SbAck 0 6; SbPick 3 3 100; SbLoss 0 6] = (Some b, outs) /\
+    runs (st b) = [(0, Lost); (3, Pending)] /\ sent b = 3 /\ base b = 0 /\ retained b = 10 /\
+    (exists b', on_data_acked b 0 6 = Some b' /\ runs (st b') = [(3, Pending)] /\ base b' = 3 /\ retained b' = 7 /\
+       exists b'' d, pick_up content b' (fun _ => Some 10) 10 = UpOk b'' 3 8 true d /\ d = slice content 3 5).
+Proof. exact p_c09_f70_regression. Qed.
+
 (* ---- outside the strict class the data statement is false (finding F28, latent) ---- *)
 
 Theorem c09_pick_data_refuted :
@@ -173,6 +223,20 @@ Example c09_nonvacuous :
   match run_ok true content (with_capacity 10) ops with
   | Some (b, outs) =>
       is_all_rcvd b = true /\ written b = 14 /\ sent b = 14 /\ base b = 14 /\ fresh_sum 0 ops outs = 14 /\
+      runs (st b) = []
+  | None => False
+  end.
+Proof. vm_compute. repeat split. Qed.
+
+(* non-vacuity of the rejection path: data sent in 0-RTT, rejection, stale loss / acknowledgement reports of the
+   0-RTT frame before and after part of the data was sent again; the history is in the strict class and ends with
+   everything acknowledged, the fresh lengths since the rejection add up to sent() *)
+Example c09_nonvacuous_rejection :
+  let ops := [SbWrite 10; SbPick 6 6 100; SbForget; SbExtend 8; SbLoss 0 6; SbAck 0 6; SbPick 3 3 100; SbLoss 0 6;
+              SbPick 9 9 100; SbPick 9 9 100; SbAck 2 6; SbExtend 10; SbPick 9 9 100; SbAck 0 10] in
+  match run_ok true content (with_capacity 10) ops with
+  | Some (b, outs) =>
+      is_all_rcvd b = true /\ written b = 10 /\ sent b = 10 /\ base b = 10 /\ fresh_sum 0 ops outs = 10 /\
       runs (st b) = []
   | None => False
   end.
@@ -200,5 +264,12 @@ Print Assumptions c09_pick_nonempty.
 Print Assumptions c09_empty_range_noop.
 Print Assumptions c09_f29_regression.
 Print Assumptions c09_forget_safe_at_base0.
+Print Assumptions c09_report_total.
+Print Assumptions c09_report_ack.
+Print Assumptions c09_report_loss.
+Print Assumptions c09_stale_report_noop.
+Print Assumptions c09_forget_then_reports.
+Print Assumptions c09_f70_regression.
 Print Assumptions c09_pick_data_refuted.
 Print Assumptions c09_nonvacuous.
+Print Assumptions c09_nonvacuous_rejection.
